@@ -82,7 +82,49 @@ class AccessMixin(object):
     for o in self._ref_attr(st, cx, base, attr, node):
       yield o
 
+  def dictlike_info(self, ty):
+    if ty.k != 'ref' or ty.name not in self.reg.classes:
+      return None
+    for c in self.mro(ty.name):
+      ci = self.reg.classes[c]
+      if ci.dictlike:
+        return ci
+    return None
+
+  def dl_field(self, ci, key, node):
+    if not (isinstance(key, V) and key.ty.k == 'str' and isinstance(key.py, str)):
+      raise Unsupported('record key must be a constant string (line %s)' % getattr(node, 'lineno', '?'))
+    if key.py not in ci.dictlike:
+      raise Unsupported('record key %r not declared for %s (line %s)' % (key.py, ci.name, getattr(node, 'lineno', '?')))
+    return ci.dictlike[key.py][0]
+
+  def dl_method(self, st, cx, recv, name, args, node):
+    ci = self.dictlike_info(recv.ty)
+    cls = recv.ty.name
+    if name in ('get', 'pop'):
+      f = self.dl_field(ci, args[0], node)
+      has = self.load_field(st, recv.t, cls, 'has_' + f).t
+      val = self.load_field(st, recv.t, cls, f)
+      default = args[1] if len(args) > 1 else NONE_V
+      if name == 'pop' and len(args) < 2:
+        for o in self.oblige_or_raise(st, cx, has, 'KeyError', node, 'pop of a present key'):
+          if isinstance(o[1], Exc):
+            yield o
+          else:
+            self.store_field(o[0], recv.t, cls, 'has_' + f, mk_bool(False))
+            yield o[0], val
+        return
+      res = self.merge_vals(has, val, default)
+      if name == 'pop':
+        self.store_field(st, recv.t, cls, 'has_' + f, mk_bool(False))
+      yield st, res
+    else:
+      raise Unsupported('record method %s (line %s)' % (name, getattr(node, 'lineno', '?')))
+
   def _ref_attr(self, st, cx, base, attr, node):
+    if attr in ('get', 'pop', 'items', 'keys', 'update', 'copy') and self.dictlike_info(base.ty) is not None:
+      yield st, VBound('dictlike', attr, recv=base)
+      return
     cls = self.mangled_owner(cx, attr) or base.ty.name
     owner, fty = self.field_decl(cls, attr)
     if owner is not None:
@@ -232,6 +274,19 @@ class AccessMixin(object):
           yield o
         else:
           yield o[0], self.dict_get(o[0], base, key)
+      return
+    if k == 'ref' and self.dictlike_info(base.ty) is not None:
+      ci = self.dictlike_info(base.ty)
+      f = self.dl_field(ci, idx, node)
+      has = self.load_field(st, base.t, base.ty.name, 'has_' + f).t
+      if self.spec_depth:
+        yield st, self.load_field(st, base.t, base.ty.name, f)
+        return
+      for o in self.oblige_or_raise(st, cx, has, 'KeyError', node, 'record key present'):
+        if isinstance(o[1], Exc):
+          yield o
+        else:
+          yield o[0], self.load_field(o[0], base.t, base.ty.name, f)
       return
     raise Unsupported('subscript of %r (line %s)' % (base, getattr(node, 'lineno', '?')))
 
@@ -534,7 +589,7 @@ class AccessMixin(object):
             self.set_update(o[0], s, mem=z3.Store(mem, x, z3.BoolVal(False)), card=card - 1)
             yield o[0], NONE_V
     elif name == 'pop':
-      for o in self.oblige_or_raise(st, cx, card > 0, 'KeyError', node, 'pop from a non-empty set'):
+      for o in self.oblige_or_raise(st, cx, mem != z3.EmptySet(base_sort(ety)), 'KeyError', node, 'pop from a non-empty set'):
         if isinstance(o[1], Exc):
           yield o
         else:
